@@ -709,6 +709,9 @@ class G:
         self.muls = 0
         self.fns = {}  # callable compiled functions: name -> (formal types, return type)
         self.ncalls = 0
+        self.bool_pool = []  # compound sub-expressions generated so far (re-used to create shared sub-terms)
+        self.int_pool = []
+        self.share = 18  # percent chance of re-using a previous compound sub-expression
 
     def names_of(self, pred):
         return [n for n, t in self.env.items() if not n.startswith("fn:") and pred(t)]
@@ -790,7 +793,28 @@ class G:
             return self.pick(ps)
         return ["k", self.draw(st.sampled_from([0, 1, 1, 2, 2, 3, 3, 4, 5, 6, 7, 8, 10, 12, 14, 15, 16, 20]))]
 
-    def gen_bool(self, d):  # noqa: C901
+    def _still_valid(self, e):
+        """a pooled sub-expression can be re-used only while every variable it reads still exists with the same type"""
+        try:
+            for nm in names_read(e):
+                if nm not in self.env:
+                    return False
+            Renderer(False).expr(e, self.env)
+            return True
+        except GenTypeError:
+            return False
+
+    def gen_bool(self, d):
+        if d > 0 and self.bool_pool and self.chance(self.share):
+            e = self.pick(self.bool_pool)
+            if self._still_valid(e) and Renderer(False).expr(e, self.env)[1] == BOOL:
+                return e
+        e = self._gen_bool(d)
+        if d > 0 and e[0] not in ("v", "k", "idx") and len(self.bool_pool) < 12:
+            self.bool_pool.append(e)
+        return e
+
+    def _gen_bool(self, d):  # noqa: C901
         if d <= 0:
             return self.bool_leaf()
         cfg = self.cfg
@@ -804,7 +828,13 @@ class G:
         tup_bools = self.paths(lambda t: is_tuple(t) and all(x == BOOL for x in elem_types(t)))
         if cfg.use_builtins and tup_bools:
             opts += ["allany"]
-        tups = [p_ for p_ in self.paths(is_tuple) if all(not is_tuple(x) for x in elem_types(_typeof(p_, self.env)))]
+        # list-constant variables are python lists: a list never equals a tuple in python, while the
+        # library has a single tuple type (and a caller may pass either) -> keep them out of comparisons
+        tups = [
+            p_
+            for p_ in self.paths(is_tuple)
+            if all(not is_tuple(x) for x in elem_types(_typeof(p_, self.env))) and _root(p_) not in self.pyint
+        ]
         if cfg.use_tuple and tups:
             opts += ["tcmp"]
         tup_bools_v = [p_ for p_ in tup_bools if p_[0] == "v"]
@@ -828,6 +858,18 @@ class G:
         if k in ("and", "or"):
             n = self.draw(st.sampled_from([2, 2, 2, 3, 4]))
             return ["bop", k, [self.gen_bool(d - 1) for _ in range(n)]]
+        if k == "xor" and d >= 2 and self.chance(35):
+            # xor of a term with a (negated) compound that contains the same term again: the shape
+            # on which accumulator / sub-expression caches of a synthesiser go stale
+            t = self.gen_bool(max(1, d - 2))
+            inner = t
+            for _ in range(self.draw(st.integers(1, 2))):
+                other = self.gen_bool(max(0, d - 2))
+                kind = self.pick(["and", "or", "^", "and"])
+                pair = [inner, other] if self.chance(50) else [other, inner]
+                inner = ["bin", "^", pair[0], pair[1]] if kind == "^" else ["bop", kind, pair]
+            r = ["not", inner] if self.chance(60) else inner
+            return ["bin", "^", t, r] if self.chance(70) else ["bin", "^", r, t]
         if k in ("xor", "bitand", "bitor"):
             op = {"xor": "^", "bitand": "&", "bitor": "|"}[k]
             return ["bin", op, self.gen_bool(d - 1), self.gen_bool(d - 1)]
@@ -874,7 +916,17 @@ class G:
         cands = [p for p in self.paths(is_int) if p[0] == "v" and p[1] not in self.pyint]
         return self.pick(cands) if cands else ["k", 0]
 
-    def gen_int(self, d):  # noqa: C901
+    def gen_int(self, d):
+        if d > 0 and self.int_pool and self.chance(self.share):
+            e = self.pick(self.int_pool)
+            if self._still_valid(e) and is_int(Renderer(False).expr(e, self.env)[1]):
+                return e
+        e = self._gen_int(d)
+        if d > 0 and e[0] not in ("v", "k", "idx") and len(self.int_pool) < 12:
+            self.int_pool.append(e)
+        return e
+
+    def _gen_int(self, d):  # noqa: C901
         if d <= 0 or (not self.paths(is_int) and not self.fns):
             return self.int_leaf()
         cfg = self.cfg
@@ -976,7 +1028,14 @@ class G:
             if ps and self.chance(70):
                 return self.pick(ps)
             return self.fixed_const(t[1], t[2])
-        k = self.pick(["leaf", "add", "sub", "ife", "mulc"])
+        opts = ["leaf", "add", "sub", "ife", "mulc"]
+        wi = [w for w, (i_, f_) in refsem.FIXED_FOR_INT.items() if [i_, f_] == [t[1], t[2]]]
+        ints_w = [p_ for p_ in self.paths(is_int) if wi and _typeof(p_, self.env)[1] == wi[0] and _root(p_) not in self.pyint]
+        if ints_w:
+            opts += ["float_i"] * 2
+        k = self.pick(opts)
+        if k == "float_i":
+            return ["call", "float", [self.pick(ints_w)]]
         if k == "leaf":
             return self.pick(ps)
         if k in ("add", "sub"):
